@@ -679,6 +679,7 @@ func (P *Prog) verifyFn(name string, sweep bool) (res *FnResult) {
 			}
 		}
 	}
+	s.checkEffects()
 	s.finalize()
 	res.VCs = s.vcs
 	res.Paths = s.paths
@@ -698,7 +699,7 @@ func (P *Prog) verifyFn(name string, sweep bool) (res *FnResult) {
 	return
 }
 
-var canaryDone = map[string]bool{}
+var canaryDone = map[string]int{}
 
 func (s *Session) atReturn(st *State, results []Value) {
 	fr := st.fr
@@ -718,9 +719,10 @@ func (s *Session) atReturn(st *State, results []Value) {
 		s.checkFrame(st, env)
 	}
 	// vacuity canary: "ensures false" must fail on at least one return path
-	if !canaryDone[s.name] {
-		canaryDone[s.name] = true
-		vc := &VC{Obl: s.obl("vacuity.canary", ""), Kind: "vacuity", Fn: s.name, ExpectSat: true, Goal: "a return path is reachable", Path: strings.Join(st.path, "")}
+	// (aggregated: the obligation holds if ANY return path is not provably dead)
+	if canaryDone[s.name] < 6 {
+		canaryDone[s.name]++
+		vc := &VC{Obl: s.obl("vacuity.canary", ""), Kind: "canary", Fn: s.name, ExpectSat: true, Goal: "a return path is reachable", Path: strings.Join(st.path, "")}
 		vc.SMT = s.vcText(st, TTrue, "*")
 		s.vcs = append(s.vcs, vc)
 	}
